@@ -336,7 +336,7 @@ PROPS = {
             "a value of the open-level map - by the map invariant a document or a section - so sections occur only directly "
             "under the document or another section, for every heading sequence - and render_heading, its only caller, is "
             "proved to call it with a fresh parentless section only when the current node is the document, a section or "
-            "a temporary root, and to put the title first; the fifteen render methods under the generic "
+            "a temporary root, and to put the title first; the seventeen render methods under the generic "
             "render contract (see C02) attach every node they create exactly once, with its parent set, below the current "
             "node (single parent, no node shared).  The other clauses of C03 (title first, "
             "transitions, unique ids, refid existence, table shape, footnote labels) are not yet under contract and are "
@@ -353,7 +353,7 @@ PROPS = {
         explanation=(
             "PROVED (pyvc, relative to the docutils node model and to the assumed induction hypothesis G' for the dynamic "
             "dispatch in render_children): the generic render contract G for render_paragraph, render_bullet_list, "
-            "render_list_item, render_em, render_strong, render_span (containers) and render_inline, render_text, render_softbreak, "
+            "render_list_item, render_em, render_strong, render_span, render_blockquote (without attribution), render_s (containers) and render_inline, render_text, render_softbreak, "
             "render_hardbreak, render_hr, render_math_inline / _single / _inline_double / _block (leaves): the current node is the same node afterwards; what it already had is kept "
             "in order; a container attaches exactly ONE new node of its kind there (parent set, line = the token's line) "
             "and renders the token's children while THAT node is the current node; a leaf attaches exactly its leaf nodes, "
@@ -369,10 +369,10 @@ PROPS = {
         ),
         assumptions=["markdown-it-py's token tree is the parse of the Markdown (oracle)",
                      "G' (render_children appends below the current node only and restores it) is the induction hypothesis of G: "
-                     "proved for the fifteen methods above given G' for their sub-trees, assumed for every other render method"],
+                     "proved for the seventeen methods above given G' for their sub-trees, assumed for every other render method"],
         trusted_base=["docutils node model and constructors (contracts/assumed_docutils.py, contracts/render.py)",
                       "DocutilsRenderer.copy_attributes (assumed: touches attributes and may append warning nodes to the new node)"],
-        technique="contract-based deductive verification of the generic render contract on fifteen render_* methods; "
+        technique="contract-based deductive verification of the generic render contract on seventeen render_* methods; "
                   "bounded run-time stand-in (token-tree vs doctree comparison on generated documents) for the whole pipeline",
     ),
     "C06": dict(
